@@ -33,7 +33,7 @@ type caseFile struct {
 	Setup int `json:"setup"` // ops [0:Setup] run directly on the router, the rest is the transaction program
 }
 
-var endings = []string{"commit", "abort", "error", "panic-string", "panic-error", "panic-nil", "panic-int", "panic-runtime", "commit-unmanaged", "abort-unmanaged"}
+var endings = []string{"commit", "abort", "error", "panic-string", "panic-error", "panic-nil", "panic-int", "panic-runtime", "panic-settled-other-txn", "commit-unmanaged", "abort-unmanaged"}
 
 func main() {
 	run := kit.Start("C04", rule)
@@ -199,6 +199,12 @@ func one(run *kit.Run, c caseFile, prog []hist.Op, k int, ending, id string) {
 				txn.Abort()
 			}
 		default:
+			// a write transaction that is already finished: using it later panics with ErrSettledTxn, like any misuse
+			var finished *fox.Txn
+			if ending == "panic-settled-other-txn" {
+				finished = w.F.Txn(true)
+				finished.Abort()
+			}
 			func() {
 				defer func() { escaped = recover() }()
 				retErr = w.F.Updates(func(t *fox.Txn) error {
@@ -217,6 +223,8 @@ func one(run *kit.Run, c caseFile, prog []hist.Op, k int, ending, id string) {
 						panic(nil)
 					case "panic-int":
 						panic(42)
+					case "panic-settled-other-txn":
+						finished.Has("GET", "/") // panics: the managed transaction t is still open and must be cleaned up
 					case "panic-runtime":
 						var m map[string]int
 						m["x"] = 1
@@ -453,4 +461,107 @@ func concurrent(run *kit.Run) {
 	conc.AllowFlip(run)
 	conc.MethodFlip(run)
 	conc.OptionsStar(run)
+	queuedWrites(run)
+}
+
+// queuedWrites: writes are serialised, none is lost. While a write transaction that has already changed things is
+// open, a one-shot write (Handle, Update, Delete, Updates, HandleRoute, UpdateRoute) is started on another goroutine
+// and given time to reach the writer lock; then the transaction commits. When both have returned, the router must
+// show the effects of BOTH - the queued write must have started from the state the transaction committed.
+func queuedWrites(run *kit.Run) {
+	h := func(fox.Context) {}
+	type qw struct {
+		name  string
+		do    func(f *fox.Router) error
+		check func(f *fox.Router) string
+	}
+	ops := []qw{
+		{"Router.Delete of an existing route", func(f *fox.Router) error { _, err := f.Delete("GET", "/old/a"); return err },
+			func(f *fox.Router) string {
+				if f.Has("GET", "/old/a") {
+					return "the deleted route is still there"
+				}
+				return ""
+			}},
+		{"Router.Delete of a route that does not exist yet", func(f *fox.Router) error { _, _ = f.Delete("GET", "/txn/1"); return nil },
+			func(f *fox.Router) string { return "" }},
+		{"Router.Handle", func(f *fox.Router) error { _, err := f.Handle("GET", "/queued/new", h); return err },
+			func(f *fox.Router) string {
+				if !f.Has("GET", "/queued/new") {
+					return "the queued Handle is missing"
+				}
+				return ""
+			}},
+		{"Router.Update", func(f *fox.Router) error { _, err := f.Update("GET", "/old/b", h, fox.WithAnnotation("queued", 1)); return err },
+			func(f *fox.Router) string {
+				if r := f.Route("GET", "/old/b"); r == nil || r.Annotation("queued") != 1 {
+					return "the queued Update is missing"
+				}
+				return ""
+			}},
+		{"Router.Updates", func(f *fox.Router) error {
+			return f.Updates(func(t *fox.Txn) error { _, err := t.Handle("POST", "/queued/post", h); return err })
+		}, func(f *fox.Router) string {
+			if !f.Has("POST", "/queued/post") {
+				return "the queued Updates is missing"
+			}
+			return ""
+		}},
+		{"Router.HandleRoute", func(f *fox.Router) error {
+			rte, err := f.NewRoute("/queued/route", h)
+			if err != nil {
+				return err
+			}
+			return f.HandleRoute("GET", rte)
+		}, func(f *fox.Router) string {
+			if !f.Has("GET", "/queued/route") {
+				return "the queued HandleRoute is missing"
+			}
+			return ""
+		}},
+	}
+	rounds := run.Pick(3, 30)
+	for round := 0; round < rounds; round++ {
+		for _, op := range ops {
+			id := fmt.Sprintf("queued-write|%s", op.name)
+			run.Case(fmt.Sprintf("%s|%d", id, round), true)
+			f, _ := fox.New()
+			for _, p := range []string{"/old/a", "/old/b", "/old/c/{p}"} {
+				f.MustHandle("GET", p, h)
+			}
+			txn := f.Txn(true)
+			for i := 0; i < 3; i++ {
+				_, _ = txn.Handle("GET", fmt.Sprintf("/txn/%d", i), h)
+			}
+			_, _ = txn.Handle("FOO", "/txn/foo", h)
+			done := make(chan error, 1)
+			go func() { done <- op.do(f) }()
+			// give the queued write time to reach the lock (longer every round; the verdict does not depend on it: if it
+			// has not got there yet the two writes simply run one after the other)
+			time.Sleep(time.Duration(2+round%5*10) * time.Millisecond)
+			txn.Commit()
+			select {
+			case err := <-done:
+				if err != nil {
+					run.Violate(id+"|error", fmt.Sprintf("%s queued behind a committing transaction failed: %v", op.name, err), nil)
+				}
+			case <-time.After(20 * time.Second):
+				run.Inconclusive("%s queued behind a transaction did not return", op.name)
+				continue
+			}
+			run.Eval(1)
+			for i := 0; i < 3; i++ {
+				if !f.Has("GET", fmt.Sprintf("/txn/%d", i)) && !(op.name == "Router.Delete of a route that does not exist yet" && i == 1) {
+					run.Violate(id+"|lost-update", fmt.Sprintf("a transaction committed GET /txn/%d while %s was waiting for the writer lock; after both returned the route is gone (Len=%d): the queued write started from the state before the commit", i, op.name, f.Len()), nil)
+					break
+				}
+			}
+			if !f.Has("FOO", "/txn/foo") {
+				run.Violate(id+"|lost-update", fmt.Sprintf("a transaction committed FOO /txn/foo while %s was waiting for the writer lock; after both returned the route is gone", op.name), nil)
+			}
+			if msg := op.check(f); msg != "" {
+				run.Violate(id+"|own-effect", fmt.Sprintf("%s queued behind a committing transaction: %s", op.name, msg), nil)
+			}
+		}
+	}
 }
